@@ -55,4 +55,5 @@ Report back: for each seed, the summary, what it needs to manifest, and confirma
         print(pid, wt, len(earlier), "earlier ideas")
 
 
-main()
+if __name__ == "__main__":
+    main()
